@@ -66,7 +66,7 @@ def simulate(S, evs, extra_occupied=(), label="", round_trip=None):
         aodsim.run_events_on(sim, evs)
     except aodsim.Reject as r:
         res = ("reject", r.kind, str(r))
-    if len(sites) <= 60 or len(COQ_CASES) % 7 == 0:
+    if len(sites) <= 60 or len(COQ_CASES) % 7 == 0 or round_trip:
         st0 = (f"(mkast {clist([f'({q(x)}, {q(y)})' for x, y in sorted(sites)])} "
                f"{clist([f'(({q(p[0])}, {q(p[1])}), {cnat(a)})' for p, a in before.items()])} [] [] [])")
         COQ_CASES.append((f"({st0}, {paths_coq(evs)})", sim_text(res, sim), label, round_trip))
@@ -94,6 +94,8 @@ def judge(ctx, move, label, S, method, args, valid, expected_end, sig_extra=None
         shape = "round-trip"
     elif valid and move == "two_col_zone.rearrange" or (valid and move == "waypoints.move_by_waypoints" and "pick=True drop=True" in label and not label.startswith("0 waypoints")):
         shape = "transport"
+    elif valid and move == "gemini.logical.vertical_shift":
+        shape = "selected-transport"
     res, before, sim = simulate(S, evs, extra_occupied, label=f"{move} {label}", round_trip=shape)
     if res[0] == "reject":
         ctx.hist(move, "NOT EXECUTABLE " + res[1])
@@ -304,9 +306,9 @@ def run(ctx):
     chunks = [cases[i:i + 25] for i in range(0, len(cases), 25)]
     bodies = [(f"sim_{k}", "From BS Require Import Core.Show Core.Base Model.Aod.\n"
                "Eval vm_compute in (lines (map (fun c => (show_sim (sim_paths (fst c) (snd c)) ++ \"|\" ++ "
-               "show_bool (round_trip_ok (traps (fst c)) (occ (fst c)) (snd c)) ++ show_bool (transport_ok (traps (fst c)) (occ (fst c)) (snd c)))%string) "
+               "show_bool (round_trip_ok (traps (fst c)) (occ (fst c)) (snd c)) ++ show_bool (transport_ok (traps (fst c)) (occ (fst c)) (snd c)) ++ show_bool (transport_sel_ok (traps (fst c)) (occ (fst c)) (snd c)))%string) "
                + clist([c[0] for c in ch]) + ")).") for k, ch in enumerate(chunks)]
-    mism, not_recognised, n_rt, n_tr, not_transport = [], [], 0, 0, []
+    mism, not_recognised, n_rt, n_tr, not_transport, n_sel, not_sel = [], [], 0, 0, [], 0, []
     for ch, (ok, vals, log) in zip(chunks, coqrun.eval_many(ctx.bdir, bodies)):
         if not ok or len(vals) != 1 or len(vals[0]) != len(ch):
             ctx.obligation("coqc simulator file evaluates", False, log[-800:])
@@ -319,6 +321,10 @@ def run(ctx):
                 n_rt += 1
                 if rt[:1] != "T":
                     not_recognised.append({"call": c[2]})
+            if c[3] == "selected-transport" and c[1].startswith("ok"):
+                n_sel += 1
+                if rt[2:3] != "T":
+                    not_sel.append({"call": c[2]})
             if c[3] == "transport" and c[1].startswith("ok"):
                 n_tr += 1
                 if rt[1:2] != "T":
@@ -331,6 +337,9 @@ def run(ctx):
                        "vacant destination (transport_ok evaluated in Coq), so theorem C08_recognised_transport_is_executable_and_delivers applies",
                        n_tr, not_transport)
     ctx.count("valid transport calls recognised by the Coq recogniser", n_tr - len(not_transport))
+    ctx.correspondence("every accepted valid gemini vertical_shift call plays one path of the selected-transport shape (transport_sel_ok evaluated "
+                       "in Coq), so theorem C08_recognised_selected_transport_is_executable_and_delivers applies", n_sel, not_sel)
+    ctx.count("valid gemini vertical_shift calls recognised by the Coq recogniser", n_sel - len(not_sel))
     ctx.sample({"call": COQ_CASES[0][2], "simulator": COQ_CASES[0][1][:200]} if COQ_CASES else "none")
     ctx.explanation = ("Theorems about the simulator that defines 'physically executable': every accepted sequence of paths conserves the atoms; "
                        "accepted releases are onto vacant trap sites, spots light up on trap sites, jumps while holding and dimension mismatches are "
